@@ -7,9 +7,25 @@ def sh(cmd, **kw): return subprocess.run(cmd, shell=True, text=True, stdout=subp
 st = sh("git -C /repo status --short")
 if st.stdout.strip():
     print("refusing: /repo is dirty:\n" + st.stdout); sys.exit(2)
+import shutil, glob
+LOCK = "/verif/.build/REPO_PATCHED.lock"
+if os.path.exists(LOCK):
+    print("refusing: another seedtest holds", LOCK); sys.exit(2)
+busy = "\n".join(l for l in sh("pgrep -af 'scripts/check.py'").stdout.split("\n")
+                 if len(l.split()) > 2 and l.split()[1].endswith("python3") and "check.py" in l.split()[2])
+if busy and not os.environ.get("SEEDTEST_FORCE"):
+    print("refusing: a check is running against /repo (it would see the patched tree):\n" + busy); sys.exit(2)
+# evidence files are rewritten by every check: keep the unchanged-tree evidence aside while /repo is patched
+EVB = "/verif/.build/evidence_backup"
+shutil.rmtree(EVB, ignore_errors=True); os.makedirs(EVB)
+for f in glob.glob("/verif/evidence/*.json"):
+    shutil.copy(f, EVB)
+open(LOCK, "w").write(str(os.getpid()))
 r = sh("git -C /repo apply %s" % patch)
 if r.returncode != 0:
+    os.remove(LOCK)
     print("patch does not apply:", r.stdout); sys.exit(2)
+os.environ["VERIF_SEEDTEST"] = "1"
 try:
     for p in props:
         t0 = time.time()
@@ -19,4 +35,8 @@ try:
         for l in lines: print("   " + l[:300])
 finally:
     sh("git -C /repo checkout -- .")
+    for f in glob.glob(EVB + "/*.json"):
+        shutil.copy(f, "/verif/evidence/")
+    if os.path.exists(LOCK):
+        os.remove(LOCK)
     print("repo restored:", sh("git -C /repo status --short").stdout.strip() or "clean")
